@@ -31,22 +31,40 @@ EndWrite == /\ IsEvent("api_end") /\ call # Idle /\ call.kind = "write" /\ Ev.ki
             /\ Ev.outcome = "value" /\ Ev.res = "ok" /\ WriteRefines
             /\ call' = Idle /\ fslog' = <<>>
 
+(* the one write failed (the file system reported an error for it): the call issued the same three calls - it did not write again - *)
+(* and reports an error                                                                                                             *)
+WriteFailedRefines ==
+  /\ Len(fslog) = 3
+  /\ LET o == fslog[1]  w == fslog[2]  c == fslog[3] IN
+     /\ o.fsop = "OpenFile" /\ o.path = call.path /\ o.acc = "WRONLY" /\ o.create
+     /\ (o.append <=> ("APPEND_WRITE" \in SetOf(call.vattrs))) /\ ~o.trunc /\ ~o.excl /\ o.err = ""
+     /\ w.fsop = "Write" /\ w.path = call.path /\ SetOf(w.battrs) = SetOf(call.vattrs) /\ w.bval = call.val
+     /\ w.blen = 4 + call.vlen /\ w.err # ""
+     /\ c.fsop = "Close" /\ c.path = call.path
+EndWriteFailed == /\ IsEvent("api_end") /\ call # Idle /\ call.kind = "write" /\ Ev.kind = "write"
+                  /\ Ev.outcome = "error" /\ Ev.res = "error" /\ WriteFailedRefines
+                  /\ call' = Idle /\ fslog' = <<>>
+
 (* ---- read: result defined by the pre-state; no mutation of the store ---- *)
 ReadOnlyFs == \A k \in 1..Len(fslog) : fslog[k].fsop \in {"Open", "Stat", "Read", "ReadAt", "Seek", "Close", "FsStat"} /\ fslog[k].path = call.path
 Required == IF call.api = "legacy" THEN {} ELSE SetOf(call.vattrs)     \* the legacy reader hands back raw attributes
 EndRead == /\ IsEvent("api_end") /\ call # Idle /\ call.kind \in {"read", "readattrs"} /\ ReadOnlyFs
            /\ LET p == call.pre IN
+              \* (the typed accessors of the legacy package answer an absent or empty variable with an empty database: their choice, outside C11's anchors)
+              \/ /\ call.api = "legacytyped" /\ (~p.present \/ p.len < 4) /\ Ev.res \in {"ok", "error"} /\ (Ev.res = "ok" => Ev.got = "empty")
+              \/ /\ call.api = "legacytyped" /\ p.present /\ p.len >= 4 /\ ~(Required \subseteq SetOf(p.attrs)) /\ Ev.res \in {"error", "wrongattrs"}
               \/ /\ ~p.present /\ Ev.res = "error" /\ Ev.outcome = "error"
               \/ /\ p.present /\ p.len < 4 /\ Ev.res = "error" /\ Ev.outcome = "error"
-              \/ /\ p.present /\ p.len >= 4 /\ ~(Required \subseteq SetOf(p.attrs))
+              \/ /\ call.api # "legacytyped" /\ p.present /\ p.len >= 4 /\ ~(Required \subseteq SetOf(p.attrs))
                  /\ Ev.res = "wrongattrs" /\ ~Ev.unmarshal_called
                  /\ (call.kind = "readattrs" => SetOf(Ev.gattrs) = SetOf(p.attrs))
               \/ /\ p.present /\ p.len >= 4 /\ Required \subseteq SetOf(p.attrs)
                  /\ Ev.res = "ok" /\ Ev.outcome = "value" /\ Ev.got = p.val
                  /\ (call.kind = "readattrs" \/ call.api = "legacy" => SetOf(Ev.gattrs) = SetOf(p.attrs))
                  /\ (call.api = "obj" => Ev.unmarshal_called)
+                 /\ (call.api = "legacytyped" => Ev.outcome = "value")
            /\ call' = Idle /\ fslog' = <<>>
-Conform == Reset \/ Begin \/ Fs \/ EndWrite \/ EndRead
+Conform == Reset \/ Begin \/ Fs \/ EndWrite \/ EndWriteFailed \/ EndRead
 Deviate == /\ l <= Len(Trace) /\ ~ENABLED Conform
            /\ TLCSet(2, TLCGet(2) \cup {l})
            /\ l' = Ev.nx /\ call' = Idle /\ fslog' = <<>>
